@@ -165,6 +165,9 @@ def corpus():
         scn([('a', 'q"\\z\\012', None)]),
         scn([('a', '\n\r\x00\x7f\x80\xff', None)]),
         scn([('a', '\xe9', None)]),
+        scn([('a', '\xc2\xa35 off', None)]),                  # Latin-1 text that happens to be valid UTF-8: must
+        scn([('a', 'r\xc3\xa9sum\xc3\xa9', None)]),           # come back verbatim (seeded change: re-decoding on read)
+        scn([('a', '\xe2\x82\xac', None)]), scn([('a', '\xf0\x9f\x98\x80!', None)]),
         scn([('a', '"', None)]), scn([('a', '""', None)]), scn([('a', '\\', None)]),
         scn([('a', 'Wed, 01-Jan-2020 00:00:00 GMT', None)]),
         scn([('a', 'a' * 4096, None)]), scn([('a', 'a' * 4097, None)]),
@@ -250,6 +253,23 @@ def gen_text(rng, maxlen=12):
     return ''.join(rng.choice(al) for _ in range(n))
 
 
+def gen_mojibake(rng):
+    """text below U+0100 whose characters form valid UTF-8 when read as bytes: the UTF-8 encoding of random
+    text (2-, 3- and 4-byte sequences) re-read as Latin-1, mixed with ASCII.  Inside the hypothesis of
+    C15_plain_roundtrip; any "helpful" re-decoding on the request side corrupts exactly these values."""
+    parts = []
+    for _ in range(rng.randrange(1, 5)):
+        r = rng.random()
+        if r < 0.35:
+            parts.append(''.join(rng.choice(LEGAL[:62] + ' -;,="') for _ in range(rng.randrange(0, 5))))
+        else:
+            cp = rng.choice([rng.randrange(0x80, 0x800), rng.randrange(0x80, 0x100), rng.randrange(0x800, 0xd800),
+                             rng.randrange(0xe000, 0x10000), rng.randrange(0x10000, 0x110000)])
+            parts.append(chr(cp).encode('utf8').decode('latin1'))
+    s = ''.join(parts)
+    return s if any(ord(ch) > 127 for ch in s) else s + '\xc2\xa3'
+
+
 def gen_obj(rng, depth=0):
     r = rng.random()
     if depth > 2 or r < 0.35:
@@ -302,7 +322,7 @@ def gen_scn(rng):
     r = rng.random()
     if r < 0.45:                                   # plain round trip
         n = gen_name(rng)
-        cookies = [(n, gen_text(rng), rng.choice([None, None, None, '']))]
+        cookies = [(n, gen_mojibake(rng) if rng.random() < 0.2 else gen_text(rng), rng.choice([None, None, None, '']))]
         if rng.random() < 0.2:
             cookies.append((gen_name(rng) if rng.random() < 0.7 else n, gen_text(rng), None))
         c = scn(cookies, rname=rng.choice(cookies)[0])
@@ -711,7 +731,7 @@ def shrink(case):
 MANIFEST = dict(
     text=('Proof: coq/props/C15.v. For EVERY mac, dumps, loads: cookie_decode calls the unpickler only on the '
           'base64-decoding of a message whose transmitted signature equals base64(mac(key, message)) '
-          '(C15_loader_guarded); any change of the signature part of a valid cookie is rejected without unpickling '
+          '(C15_loader_guarded, and C15_request_loader_guarded for Request.get_cookie on ANY Cookie header); any change of the signature part of a valid cookie is rejected without unpickling '
           '(C15_signature_tamper); acceptance of a changed payload or of another key yields an explicit MAC '
           'collision (C15_payload_tamper, C15_other_secret: reduction to unforgeability of HMAC-MD5); signed and '
           'plain cookies round-trip through Set-Cookie -> Cookie -> get_cookie under the guards the code really has '
